@@ -106,7 +106,12 @@ def worker_chunk(prop_id, tier, master, indices, wall_deadline, mode):
             else:
                 seed = run_seed(master, prop_id, tier, i)
                 case = prop.gen(random.Random(seed), tier, seed)
+            from . import world as _world
+            del _world.HARNESS_ERRORS[:]
             res = prop.run(case)
+            if _world.HARNESS_ERRORS:
+                raise RuntimeError('exception in harness code inside a loop '
+                                   'callback:\n' + _world.HARNESS_ERRORS[0])
         except Exception:
             agg['harness_errors'].append(
                 {'index': i, 'mode': mode, 'tb': traceback.format_exc()[-3000:]})
